@@ -543,7 +543,8 @@ func (c *converter) ReadFile(path string, valueUsed bool) (string, error) {
 
 	// Command substitution drops every trailing newline. To get back exactly what write() stored
 	// (content plus one newline), protect the end with a marker and remove marker and one newline.
-	c.VarAssignment(helper, fmt.Sprintf("$(cat -- \"%s\"; printf x)", path), false)
+	// The file is passed via redirection because cat reads the standard input if the file is called "-".
+	c.VarAssignment(helper, fmt.Sprintf("$(cat < \"%s\"; printf x)", path), false)
 	c.addLine(fmt.Sprintf(`%s="${%s%%x}"`, name, name))
 	c.addLine(fmt.Sprintf(`%s="${%s%%$'\n'}"`, name, name))
 	return c.VarEvaluation(helper, valueUsed, false)
